@@ -4,13 +4,16 @@ from translators import tr_c16
 
 PID = "C16"
 CLAIM = True
-MANIFEST_TEXT = ("Lean 4 theorems (45) over a model in which an iterator is (container, position) and every public operator is derived "
+MANIFEST_TEXT = ("Lean 4 theorems (49) over a model in which an iterator is (container, position) and every public operator is derived "
                  "exactly as iteratorfacades.hh derives it (legacy Forward/Bidirectional/RandomAccess facades incl. both "
                  "is_convertible branches, the new IteratorFacade over a base iterator incl. its derived()+=1 branch, the "
                  "hand-written IntegralRangeIterator, IndexedIterator, the pointer chasing SLList iterators): ++/-- inverse, "
                  "it+n / it+=n / it[n] = n single steps, every HISTORY of stepping operators = one advance by the net "
                  "displacement, (a+n)-a = n, the machine difference of IntegralRangeIterator = the true difference whenever "
-                 "representable, the six comparisons = position order (a strict order), const/mutable equality; IntegralRange "
+                 "representable (and the true one modulo 2^bits otherwise), the six comparisons = position order (a strict order; for the "
+                 "IntegralRangeIterator for EVERY width of the integral type and any distance of the two positions, for a "
+                 "transformed range over an integral range wherever difference_type holds the distance - finding F1, _partial), "
+                 "const/mutable equality; IntegralRange "
                  "/ StaticIntegralRange enumerate from..to-1 (loops proved for every sufficient fuel), transformed ranges apply "
                  "f once per element in order, sparse ranges pair entries with indices, static and dynamic Hybrid::size/"
                  "elementAt/forEach/accumulate/ifElse/switchCases and the integer_sequence helpers agree.  The one-line "
@@ -18,11 +21,15 @@ MANIFEST_TEXT = ("Lean 4 theorems (45) over a model in which an iterator is (con
                  "proved about the generated expressions; each run also executes the same expressions and histories on every "
                  "iterator type the library builds and diffs against the model, with an integer-position oracle.")
 MANIFEST_NOTE = ("Trusted: Lean kernel (+propext/Classical.choice/Quot.sound), the translator's reading of the operator bodies "
-                 "(canonical form on grid-equivalence; unparsed pieces fall back to the correspondence run), the hand-written "
+                 "(canonical form on grid-equivalence - exact integers, plus an 8 bit grid where a machine difference occurs; a piece "
+                 "it cannot read breaks the obligation translator_read_all_bodies), the hand-written "
                  "rest of the model (differential run only), g++/libstdc++ iterators as base iterators, ASan/UBSan.  Overload "
                  "selection (which facade operator / Hybrid overload the compiler picks) is a compile-time fact the model "
-                 "takes as given; apart from the iterator difference, integer wrap-around of narrow integral types is outside "
-                 "the model (positions within the range are assumed representable).")
+                 "takes as given; integer wrap-around is modelled where the operator bodies form a difference of iterators or cast "
+                 "to difference_type (E.wsub, width taken from the iterator kind); values, positions and step counts inside a "
+                 "range are representable in its type by construction.  Open finding F1: the new IteratorFacade orders by the "
+                 "machine difference, so iterators of a transformed range over an integral range with more than "
+                 "max(difference_type) elements compare inverted (model and run follow the code; theorem _partial).")
 TECHNIQUE = ("Lean 4 proof over facade-derivation model whose operator bodies are translated from the headers on every run + "
              "differential correspondence on all library iterator kinds (single expressions and operation histories) with "
              "integer-position oracle")
@@ -46,17 +53,24 @@ RULE = ("cases: one iterator expression (++, --, +=, -=, +, -, n+it, [], *, inde
         "straddling the signed maximum (u8/u32/u64 incl. values >= 2^63), range(to)/pair constructors, "
         "TransformedRangeView size/empty/[], sparseRange over DiagonalMatrix rows, three-argument switchCases, "
         "integralRange(end), integer_sequence get/front/back/head/tail/push_*/size/empty/contains/difference/equal/sorted.  "
+        "round 4: integral ranges of ANY extent of the eight integral types (bounds/values at the type limits, distances around "
+        "and beyond max(difference_type)): six comparisons + difference of two IntegralRangeIterators (itcmp) and of two "
+        "iterators of a transformed range over the integral range (tcmp), it+n / n+it / += / [] / - / -= with n up to "
+        "max(difference_type) on both (itadv, tadv), size/contains/empty of such ranges; 128 bit oracle.  "
         "distinct = distinct op lines; "
         "non-trivial = oracle-checked (malformed lines answer bad-op and are trivial)")
 ASSUMPTIONS = [
     "the operator bodies of lean/DuneVerif/Gen/C16.lean are regenerated from the headers by tools/translators/tr_c16.py "
     "(a body that agrees with its canonical form on an integer/boolean grid is emitted in canonical form; a body the "
-    "translator cannot read is emitted in canonical form and listed in Gen.unparsed); the rest of "
+    "translator cannot read is emitted in canonical form and listed in Gen.unparsed, which the obligation "
+    "translator_read_all_bodies requires to be empty); the rest of "
     "lean/DuneVerif/Model/C16.lean (which primitive an operator calls, loops, IndexedIterator, hybrid helpers) is "
     "hand-written and its fidelity rests on this differential run",
     "iterators of std::vector/std::list/std::forward_list used as base iterators behave as positions (trusted libstdc++)",
-    "positions and step counts stay representable in the iterator's value/difference type (wrap-around is modelled for the "
-    "difference of two IntegralRangeIterators only)",
+    "values and step counts inside a range are representable in its value/difference type; wrap-around is modelled for the "
+    "difference of two IntegralRangeIterators and for differences/casts to difference_type inside their comparison bodies "
+    "(E.wsub); the order of transformed-range iterators over an integral range is judged by the oracle only where "
+    "difference_type holds the distance (finding F1, theorem nf_over_integral_range_rel_ops_partial)",
     "which overload / is_convertible branch the compiler selects for a kind is tabulated in the driver (kinfo), not derived",
     "the model describes the repaired IntegralRangeIterator (fixes/C16_integralrange_strict_order.patch, applied to /repo as 781d470: "
     "< and > strict; fixes/C16_integralrange_diff_overflow.patch: difference formed in the unsigned type)",
